@@ -553,6 +553,38 @@ func genRules(r *c.Rng, near *[]string) Rules {
 	return ru
 }
 
+// nearMailbox derives an address from a full-mailbox rule (local@domain): the same mailbox with the domain
+// respelled (letter case, trailing dot, sub-domain) or the local part respelled (which must not match).
+func nearMailbox(r *c.Rng, k *Case) string {
+	var boxes []string
+	for _, e := range append(append([]string{}, k.P.Email...), k.X.Email...) {
+		if i := strings.LastIndex(e, "@"); i > 0 && i < len(e)-1 {
+			boxes = append(boxes, e)
+		}
+	}
+	if len(boxes) == 0 {
+		return ""
+	}
+	e := c.Pick(r, boxes)
+	i := strings.LastIndex(e, "@")
+	local, dom := e[:i], e[i+1:]
+	switch r.Intn(8) {
+	case 0, 1:
+		dom = strings.ToUpper(dom)
+	case 2:
+		dom = strings.ToUpper(dom[:1]) + dom[1:]
+	case 3:
+		dom = strings.ToLower(dom)
+	case 4:
+		local = strings.ToUpper(local)
+	case 5:
+		dom = c.Pick(r, labels) + "." + dom
+	case 6:
+		dom += "."
+	}
+	return local + "@" + dom
+}
+
 // nearName derives a DNS-ish name from a rule so that hits and near-misses are frequent.
 func nearName(r *c.Rng, near []string) string {
 	if len(near) == 0 || r.Chance(1, 4) {
@@ -602,7 +634,9 @@ func genCase(r *c.Rng) *Case {
 			k.IPs = append(k.IPs, c.Pick(r, ipsPool))
 		}
 		for i := nn(2); i > 0; i-- {
-			if r.Chance(1, 2) {
+			if mb := nearMailbox(r, k); mb != "" && r.Chance(1, 3) {
+				k.Emails = append(k.Emails, mb)
+			} else if r.Chance(1, 2) {
 				k.Emails = append(k.Emails, c.Pick(r, locals)+"@"+nearName(r, near))
 			} else {
 				k.Emails = append(k.Emails, genEmail(r))
